@@ -3,6 +3,7 @@ import ComposeVerif.Ops.C07
 import ComposeVerif.Model.EnvLayers
 import ComposeVerif.Spec.EnvLayers
 import ComposeVerif.Model.EnvLayersLoad
+import ComposeVerif.Model.EnvLayersSites
 /-! line-protocol ops for C16: `c16.env`, `c16.labels`, `c16.load` (model) and `c16.spec` (specification) -/
 open Lean
 namespace CV.Ops.C16
@@ -144,8 +145,12 @@ def loadOp : Handler := fun args =>
   let cfg : LoadCfg := { skipNormalization := getBool args "skip_normalization",
                          skipResolveEnvironment := getBool args "skip_resolve_environment",
                          discard := getBool args "discard" }
-  outJson (loadProjectY cfg penv fs ((arr args "services").map fun j =>
-    ((serviceOfJson j).1, { yenv := yenvOf j, ylabels := ylabelsOf j, svc := (serviceOfJson j).2 })))
+  let svcs := (arr args "services").map fun j =>
+    ((serviceOfJson j).1, ({ yenv := yenvOf j, ylabels := ylabelsOf j, svc := (serviceOfJson j).2 } : YService))
+  -- `methods`: the second call site (load with SkipResolveEnvironment, then the Project method); `layout` is not read:
+  -- the model is the same wherever the services are written (`relocation_env`, `relocation_labels`)
+  if getBool args "methods" then outJson (loadThenResolveY cfg penv fs svcs)
+  else outJson (loadProjectY cfg penv fs svcs)
 
 /-! ### specification op (direct oracle) -/
 open CV.EnvLayers.Spec
